@@ -33,9 +33,9 @@ func init() {
 	}
 	props["C10"] = &propCfg{
 		ID: "C10", Harness: "disk",
-		Quick:    tierCfg{Runs: 60000, Procs: 8, WallS: 600},
-		Thorough: tierCfg{Runs: 10000000, Procs: 16, Seeds: 3, WallS: 3300},
-		Rule: "NARROW CLAIM (I/O surface only). one evaluation = one generated scenario on the simulated disk: (a) a program issuing 1-5 of 读取文件/写入文件/读取目录 on a small path set (files, a directory, missing paths, missing parent), each result bound+displayed, displayed directly, or returned by 输出, with or without a 拦截异常 handler; (b) LoadFile(...).Execute of a project with nested-directory imports, with a module missing / replaced by a directory / parent replaced by a file / not UTF-8; (c) a request through ZnPlaygroundHandler / ZnHttpHandler whose body reader fails after k bytes. Fault kinds (random subset per run, a third of the runs fault-free): stat EACCES, open EACCES/EMFILE/ENOENT-after-stat, read EIO, short reads, write ENOSPC/EROFS/torn, readdir EIO, client abort mid-body. Oracle: no Go panic, no nil element, fault-free runs match a path->bytes reference model exactly (display, result, final disk), faulted runs may fail but never show data that was never written, every failure reaches 拦截异常 when there is one, a faulted load never runs on silently. distinct_nontrivial = distinct (kind, enabled faults, handler, operation sequence) tuples.",
+		Quick:    tierCfg{Runs: 60000, Procs: 8, WallS: 600, Params: "enum=1"},
+		Thorough: tierCfg{Runs: 10000000, Procs: 16, Seeds: 3, WallS: 3300, Params: "enum=1"},
+		Rule: "NARROW CLAIM (I/O surface only). The first 9,072 runs of every seed ENUMERATE one-operation programs: (读取文件|写入文件|读取目录) x 7 paths x initial content (absent, UTF-8, GBK bytes) x use of the result (bound+displayed, displayed directly, returned by 输出) x with/without 拦截异常 x (no fault | each of the 11 disk fault kinds) forced at its 1st or 2nd eligible operation. The remaining runs: one evaluation = one generated scenario on the simulated disk: (a) a program issuing 1-5 of 读取文件/写入文件/读取目录 on a small path set (files, a directory, missing paths, missing parent), each result bound+displayed, displayed directly, or returned by 输出, with or without a 拦截异常 handler; (b) LoadFile(...).Execute of a project with nested-directory imports, with a module missing / replaced by a directory / parent replaced by a file / not UTF-8; (c) a request through ZnPlaygroundHandler / ZnHttpHandler whose body reader fails after k bytes. Fault kinds (random subset per run, a third of the runs fault-free): stat EACCES, open EACCES/EMFILE/ENOENT-after-stat, read EIO, short reads, write ENOSPC/EROFS/torn, readdir EIO, client abort mid-body. Oracle: no Go panic, no nil element, fault-free runs match a path->bytes reference model exactly (display, result, final disk), faulted runs may fail but never show data that was never written, every failure reaches 拦截异常 when there is one, a faulted load never runs on silently. distinct_nontrivial = distinct (kind, enabled faults, handler, operation sequence) tuples.",
 		Assume: []string{
 			"only the I/O-facing built-ins, source loading and the handlers' body reading are covered; the ~90 pure members x argument tuples of C10 are pure functions of their input and are NOT covered",
 			"os shim fidelity: errors are *fs.PathError with the errno a POSIX kernel would give",
@@ -108,8 +108,8 @@ func init() {
 	props["C16"] = &propCfg{
 		ID: "C16", Harness: "iso",
 		Quick:    tierCfg{Runs: 4000, Procs: 8, WallS: 900, Params: "shrinkcap=40"},
-		Thorough: tierCfg{Runs: 300000, Procs: 16, Seeds: 2, WallS: 3300, Params: "shrinkcap=40"},
-		Rule: "one evaluation = (two thirds of the runs, part A) a history P1;...;Pn;Q, n <= 4, played in ONE freshly exec'ed OS process (the long-lived REPL/server situation; each execution has its own simulated disk; the Interpreter object is reused or replaced per execution by a tape draw) with polluters Pi drawn from a catalogue generated from the actual global table (every mutating method name x every predefined value with 0-2 arguments, 如何新建X？ for every predefined value and for a registered library class, property assignment on every predefined value, declarations of global names and of names victims use, a program that dies inside nested calls, imports of every library, a file project whose module has the victim's module name but other content, a failing library call) and a victim Q from a fixed battery (reads of every predefined value, arithmetic on 数值, throw/catch, uncaught throw, JSON round trip, a file project importing a module, local names, a script importing a module, 新建异常, a library class); reference = Q alone in another freshly exec'ed process; (one third, part B) 2-4 simulated callers entering one ZnPlaygroundHandler / ZnHttpHandler with one shared interpreter under the seeded scheduler, pre-empted at every function entry of pkg/exec, pkg/runtime, pkg/server; oracles: every response equals the response of the same request served alone, and the lockset oracle over the T4 access records (package-level variables and fields of Zn struct types; same location, two caller tasks, at least one write, no common lock) reports nothing. distinct_nontrivial = distinct (polluter kind, victim) pairs and histories plus distinct interleavings of part B.",
+		Thorough: tierCfg{Runs: 150000, Procs: 16, Seeds: 2, WallS: 3500, Params: "shrinkcap=40,enum=1"},
+		Rule: "thorough tier: the first runs of every seed ENUMERATE every single polluter of the catalogue (every mutating method name x every predefined value x 5 argument shapes; constructor redefinition and property assignment for every predefined value and library class; every mutator on every property/copy/item of a fresh library object) against every victim kind (about 9,500 histories of length one). Otherwise: one evaluation = (two thirds of the runs, part A) a history P1;...;Pn;Q, n <= 4, played in ONE freshly exec'ed OS process (the long-lived REPL/server situation; each execution has its own simulated disk; the Interpreter object is reused or replaced per execution by a tape draw) with polluters Pi drawn from a catalogue generated from the actual global table (every mutating method name x every predefined value with 0-2 arguments, 如何新建X？ for every predefined value and for a registered library class, property assignment on every predefined value, declarations of global names and of names victims use, a program that dies inside nested calls, imports of every library, a file project whose module has the victim's module name but other content, a failing library call) and a victim Q from a fixed battery (reads of every predefined value, arithmetic on 数值, throw/catch, uncaught throw, JSON round trip, a file project importing a module, local names, a script importing a module, 新建异常, a library class); reference = Q alone in another freshly exec'ed process; (one third, part B) 2-4 simulated callers entering one ZnPlaygroundHandler / ZnHttpHandler with one shared interpreter under the seeded scheduler, pre-empted at every function entry of pkg/exec, pkg/runtime, pkg/server; oracles: every response equals the response of the same request served alone, and the lockset oracle over the T4 access records (package-level variables and fields of Zn struct types; same location, two caller tasks, at least one write, no common lock) reports nothing. distinct_nontrivial = distinct (polluter kind, victim) pairs and histories plus distinct interleavings of part B.",
 		Assume: []string{
 			"Go's race detector cannot be used under a controlled scheduler (gate hand-offs are happens-before edges); the T4 + lockset oracle replaces it and sees only accesses written as x.f / pkgvar in Zn's own packages, reached through a plain pointer variable",
 			"the caller tasks of part B never synchronise with each other, so any two conflicting accesses are concurrent",
